@@ -174,8 +174,8 @@ def property_failures(lab: Lab, history, real) -> list:
     kind 'current-conf' (behaviour/code differs from the empty-cache oracle) or 'mix' (file content vs marker)."""
     fails = []
     for i, (r, res) in enumerate(zip(history, real)):
-        if res.get('stuck'):
-            raise RuntimeError(f'forced schedule did not terminate: {describe(history)}')
+        if res.get('stuck') or any(imp['event'].get('sched_timeout') for imp in res['imports']):
+            raise RuntimeError(f'forced schedule did not terminate in time (no verdict): {describe(history)}')
         for imp in res['imports']:
             m = imp['mod']
             want = lab.oracle(conf_of(r, m), res['versions'][m])[m]
@@ -408,8 +408,8 @@ def canonical_key(history, fails) -> str:
         if not r['hooks']:
             t = 'off'
         else:
-            sig = tuple(sorted((p, ci // len(RTS)) for p, ci in r['hooks']))
-            t = 'hook' + letters.setdefault(sig, chr(ord('A') + len(letters)))
+            # packages hooked in this run, each with the letter of its AST shape (letters by first occurrence)
+            t = '+'.join(f'{p}:' + letters.setdefault(ci // len(RTS), chr(ord('A') + len(letters))) for p, ci in sorted(r['hooks']))
         toks.append(t + ('+edit' if r['edits'] else ''))
     return f'C16:seq:[{",".join(toks)}]:{kind}'
 
